@@ -41,6 +41,7 @@ type evidence struct {
 	loadS          float64
 	crossChecked   int
 	crossDisagree  int
+	notes          map[string]int
 	crossSolvers   []string
 }
 
@@ -71,6 +72,12 @@ func (ev *evidence) absorb(results []*unitResult, phase string) {
 		ev.solverS += r.solverTime.Seconds()
 		for c, n := range r.cover {
 			ev.cover[c] += n
+		}
+		for m, n := range r.notes {
+			if ev.notes == nil {
+				ev.notes = map[string]int{}
+			}
+			ev.notes[m] += n
 		}
 		for f := range r.funcs {
 			ev.funcs[f] = true
@@ -164,6 +171,9 @@ func (ev *evidence) write(verif string, spec *CheckSpec) error {
 	}
 	for _, f := range intr {
 		assumptions = append(assumptions, "intrinsic model used: "+f)
+	}
+	for m, n := range ev.notes {
+		assumptions = append(assumptions, fmt.Sprintf("%s (%d paths cut)", m, n))
 	}
 	assumptions = append(assumptions, spec.Assumptions...)
 	for _, u := range spec.Units {
